@@ -29,8 +29,9 @@ type regCase struct {
 type regStep struct {
 	Method string `json:"method,omitempty"`
 	Route  core.B `json:"route"`
-	Intent string `json:"intent,omitempty"`      // generator's intent (statistics only; never used by the oracle)
-	Split  int    `json:"group_split,omitempty"` // Flame level: >0 = the text is declared as Group(text[:Split]) { Route(text[Split:]) }; the registered route is the plain concatenation
+	Intent string `json:"intent,omitempty"`                       // generator's intent (statistics only; never used by the oracle)
+	Arg    string `json:"routes_extra_method_argument,omitempty"` // Flame level: registered with Routes(text, Method, Arg, handler): Method is a comma list whose items are trimmed, Arg is one more method name given as it is
+	Split  int    `json:"group_split,omitempty"`                  // Flame level: >0 = the text is declared as Group(text[:Split]) { Route(text[Split:]) }; the registered route is the plain concatenation
 }
 
 var routerMethods = []string{"GET", "POST", "PUT", "DELETE", "PATCH", "OPTIONS", "HEAD", "CONNECT", "TRACE"}
@@ -251,6 +252,13 @@ func genRegCase(rng *rand.Rand) *regCase {
 			if rng.Intn(25) == 0 {
 				st.Method = []string{"BREW", "", " GET", "GET ", "G\xc9T", "**", "GET,POST"}[rng.Intn(7)]
 				st.Intent = "unknown method"
+			} else if st.Split == 0 && rng.Intn(20) == 0 {
+				// Routes() with one more method as a string argument (known, or known only after trimming / splitting)
+				st.Method = []string{st.Method, " " + st.Method + " ", "PATCH, " + st.Method}[rng.Intn(3)]
+				st.Arg = []string{"PUT", "delete", " POST", "PUT ", "\tDELETE", "BREW", "GET,POST", " "}[rng.Intn(8)]
+				if rng.Intn(2) == 0 {
+					st.Arg = []string{"PUT", "delete", "TRACE"}[rng.Intn(3)]
+				}
 			}
 		}
 		if rt != nil {
@@ -276,6 +284,7 @@ func runC08(r *core.Run) {
 		r.GateCounter("rejected-both:"+string(cat), 100)
 	}
 	r.GateCounter("rejected-both:unknown method", 50)
+	r.GateCounter("declared-through-routes-with-method-argument", 20)
 	r.GateCounter("accepted-both", int64(n))
 	r.GateCounter("reachability-dispatches", int64(n))
 	r.GateCounter("odd-segment-totality", 100)
@@ -355,15 +364,27 @@ func judgeRegCase(w *core.W, c *regCase) {
 		expectReject := ""
 		judged := true
 		if flame {
-			up := strings.ToUpper(st.Method)
-			switch {
-			case up == "*":
-				methods = routerMethods
-			case isKnownMethod(up):
-				methods = []string{up}
-			default:
-				methods = nil
-				expectReject = "unknown method"
+			tokens := []string{st.Method}
+			if st.Arg != "" {
+				// Routes(): the items of the comma list are trimmed, a method given as an argument is taken as it is;
+				// they are registered one after the other, so whatever precedes an unknown one stays registered
+				tokens = nil
+				for _, t := range strings.Split(st.Method, ",") {
+					tokens = append(tokens, strings.TrimSpace(t))
+				}
+				tokens = append(tokens, st.Arg)
+			}
+			methods = nil
+			for _, t := range tokens {
+				up := strings.ToUpper(t)
+				switch {
+				case up == "*":
+					methods = append(methods, routerMethods...)
+				case isKnownMethod(up):
+					methods = append(methods, up)
+				default:
+					methods = append(methods, "?unknown")
+				}
 			}
 		}
 		if expectReject == "" && merr != nil {
@@ -377,6 +398,20 @@ func judgeRegCase(w *core.W, c *regCase) {
 		partial := false
 		if expectReject == "" {
 			for _, m := range methods {
+				if m == "?unknown" {
+					expectReject = "unknown method"
+					break
+				}
+				dupInCall := false
+				for _, p := range commits {
+					if p.m == m {
+						dupInCall = true
+					}
+				}
+				if dupInCall {
+					expectReject = string(rmodel.RejDuplicate) // the same method twice in one Routes() call: the second registration meets the first
+					break
+				}
 				forms, cat, j := model(m).Check(i, mr)
 				if !j {
 					judged = false
@@ -416,6 +451,9 @@ func judgeRegCase(w *core.W, c *regCase) {
 			}()
 			// a panic inside a group body leaves the group stack behind (the application would have died here), so
 			// after a refusal the instance is rebuilt from the accepted routes even in continue mode (below)
+		} else if flame && st.Arg != "" {
+			w.Count("declared-through-routes-with-method-argument")
+			_, pan = flameRegisterArgs(f, true, st.Method, []string{st.Arg}, txt, i, &hit, &seen)
 		} else if flame {
 			_, pan = flameRegister(f, st.Method, txt, i, &hit, &seen)
 		} else {
